@@ -355,3 +355,27 @@ Lemma GdsRt_lib_ok_rust_eq l : lib_ok l -> lib_rust_eqb l (lib_readback l) = tru
 Proof.
   intros Hok. apply GdsRt_map_reals_rust_eq. intros x Hx. apply GdsW_real_ok_rt, (GdsRt_lib_ok_reals l Hok x Hx).
 Qed.
+
+(** * [lib_canon] changes nothing but negative zeros *)
+Lemma GdsRt_option_map_id {A} (o : option A) : option_map (fun x => x) o = o.
+Proof. destruct o; reflexivity. Qed.
+Lemma GdsRt_strans_map_id s : strans_map_reals (fun x => x) s = s.
+Proof. destruct s. unfold strans_map_reals. cbn. rewrite !GdsRt_option_map_id. reflexivity. Qed.
+Lemma GdsRt_ostrans_map_id o : option_map (strans_map_reals (fun x => x)) o = o.
+Proof. destruct o; cbn; [rewrite GdsRt_strans_map_id|]; reflexivity. Qed.
+Lemma GdsRt_element_map_id e : element_map_reals (fun x => x) e = e.
+Proof. destruct e as [e|e|e|e|e|e|e]; destruct e; cbn; rewrite ?GdsRt_ostrans_map_id; reflexivity. Qed.
+Lemma GdsRt_lib_map_id l : lib_map_reals (fun x => x) l = l.
+Proof.
+  destruct l as [n v d [u0 u1] ss]. unfold lib_map_reals. cbn [l_name l_version l_dates l_units l_structs fst snd].
+  f_equal. rewrite <- (map_id ss) at 2. apply map_ext. intros [sn sd es]. unfold struct_map_reals. cbn [s_name s_dates s_elems].
+  f_equal. rewrite <- (map_id es) at 2. apply map_ext. apply GdsRt_element_map_id.
+Qed.
+Theorem GdsRt_canon_no_negzero l : (forall x, In x (lib_reals l) -> x <> two63) -> lib_canon l = l.
+Proof.
+  intros H. rewrite <- (GdsRt_lib_map_id l) at 2. apply GdsRt_lib_map_ext. intros x Hx. unfold canon_real.
+  destruct (f64_is_zero x) eqn:E; [|reflexivity].
+  destruct (GdsW_zero_cases x E) as [-> | ->]; [reflexivity | exfalso; exact (H _ Hx eq_refl)].
+Qed.
+Lemma GdsRt_lib_ok_canon_rust_eq l : lib_ok l -> lib_rust_eqb l (lib_canon l) = true.
+Proof. intros H. rewrite <- (GdsRt_readback_canon l H). apply GdsRt_lib_ok_rust_eq, H. Qed.
